@@ -277,6 +277,7 @@ func (c *Ctx) ruleCopyWriteback(pkgs ...string) {
 			}
 			vals, _, _ := P.CellStores(a)
 			var lk *ssa.Lookup
+			var lkMap, lkKey string // the looked-up map and key, as seen from this function
 			for _, v := range vals {
 				switch x := v.(type) {
 				case *ssa.Lookup:
@@ -285,10 +286,32 @@ func (c *Ctx) ruleCopyWriteback(pkgs ...string) {
 					if l, ok := x.Tuple.(*ssa.Lookup); ok && x.Index == 0 {
 						lk = l
 					}
+				case *ssa.Call:
+					// an accessor helper that returns the stored copy: `entry := m.entryFor(key)`
+					callee := x.Call.StaticCallee()
+					if callee == nil || !P.IsProductFunc(callee) || len(callee.Blocks) == 0 || P.isAnchor(callee) {
+						continue
+					}
+					var rets []*ssa.Return
+					allInstrs(callee, func(_ *ssa.BasicBlock, i2 ssa.Instruction) {
+						if r, ok := i2.(*ssa.Return); ok {
+							rets = append(rets, r)
+						}
+					})
+					if len(rets) != 1 || len(rets[0].Results) != 1 {
+						continue
+					}
+					if l, ok := rets[0].Results[0].(*ssa.Lookup); ok {
+						lk = l
+						P.PinnedAll(pinMap{callee: x}, func() { lkMap, lkKey = P.Desc(l.X), P.Desc(l.Index) })
+					}
 				}
 			}
 			if lk == nil {
 				return
+			}
+			if lkMap == "" {
+				lkMap, lkKey = P.Desc(lk.X), P.Desc(lk.Index)
 			}
 			// mutating calls on &a
 			refs := a.Referrers()
@@ -320,7 +343,7 @@ func (c *Ctx) ruleCopyWriteback(pkgs ...string) {
 				// (a call through an unknown function value that receives &copy is assumed to modify it)
 				n++
 				cons := FuncName(fn) + "#" + calleeName
-				if writebackOnAllPaths(P, call, a, lk) {
+				if writebackOnAllPaths(P, call, a, lkMap, lkKey) {
 					c.ok("COPY-WRITEBACK", cons, P.Pos(call.Pos()), "mutated copy is stored back into "+short(P.Desc(lk.X))+" on every path")
 				} else {
 					c.fail("COPY-WRITEBACK", cons, P.Pos(call.Pos()), "struct copied out of a map is mutated by "+calleeName+" but not stored back on every path: the mutation is lost when the callee allocates a new inner map/slice")
@@ -363,13 +386,13 @@ func writesThroughReceiver(P *Program, fn *ssa.Function, seen map[*ssa.Function]
 
 // writebackOnAllPaths: from the instruction after call, every path to a Return executes
 // MapUpdate(map == lk.X, key == lk.Index, value == load(cell)).
-func writebackOnAllPaths(P *Program, call *ssa.Call, cell *ssa.Alloc, lk *ssa.Lookup) bool {
+func writebackOnAllPaths(P *Program, call *ssa.Call, cell *ssa.Alloc, lkMap, lkKey string) bool {
 	isWB := func(ins ssa.Instruction) bool {
 		mu, ok := ins.(*ssa.MapUpdate)
 		if !ok {
 			return false
 		}
-		if P.Desc(mu.Map) != P.Desc(lk.X) || P.Desc(mu.Key) != P.Desc(lk.Index) {
+		if P.Desc(mu.Map) != lkMap || P.Desc(mu.Key) != lkKey {
 			return false
 		}
 		u, ok := mu.Value.(*ssa.UnOp)
